@@ -43,7 +43,15 @@
 //!                               mutated: bytes replaced / inserted / deleted, tail cut, lengths
 //!                               re-fixed or not) read with read_record_buf under the header those
 //!                               kinds define; obs = every field of the RecordBuf, or `Fail`
+//!   vb  ver infodefs filters fmtdefs contigs ns rec ftab rlen   ONE RecordBuf through both real
+//!                               writers and eager readers (VCF text and BCF) against NV.Bcf.Bridge
+//!                               bcf_write / bcf_read and NV.Vcf.Line write_line / read_eager; see
+//!                               shared/c10_bridge.rs
 //! Implementation-only oracle:
+//!   mr  seed                    several records (alternating rich / poor in every column) of ONE BCF
+//!                               file read with one reused RecordBuf, through record_bufs(), with a
+//!                               fresh RecordBuf per record and with one reused lazy bcf::Record
+//!                               (shared/c10_bridge.rs)
 //!   rec profile seed            a generated header (+IDX assignments) and record, written as BCF,
 //!                               read back through read_record_buf and through the lazy bcf::Record,
 //!                               compared structurally and as VCF text.
@@ -72,6 +80,9 @@ use noodles_vcf::{
     },
 };
 use nv::{Case, CaseWriter, Obs, Outcome, Rng, errkind, guarded, hex, unhex};
+
+#[path = "../shared/c10_bridge.rs"]
+mod bridge;
 
 // ---------------------------------------------------------------------------------------------
 // Plain description of headers and records (what the generator produces and what both read
@@ -1792,6 +1803,12 @@ fn generate(rng: &mut Rng, tier: &str, w: &mut CaseWriter) {
         };
         w.push("rec", vec![profile.to_string(), rng.next().to_string()]);
     }
+
+    // --- `vb`: one RecordBuf through both writers / readers (VCF <-> BCF bridge)
+    bridge::gen_vb(rng, tier, w);
+
+    // --- `mr`: several records of one file read into reused buffers
+    bridge::gen_mr(rng, tier, w);
 }
 
 // ---------------------------------------------------------------------------------------------
@@ -2606,6 +2623,12 @@ fn run_hxr(c: &Case) -> Obs {
 }
 
 fn run(c: &Case) -> Obs {
+    if c.kind == "vb" {
+        return bridge::run_vb(c);
+    }
+    if c.kind == "mr" {
+        return bridge::run_mr(c);
+    }
     if c.kind == "hxr" {
         return run_hxr(c);
     }
